@@ -156,13 +156,13 @@ Section Loop.
 End Loop.
 
 (* Utf16::Decode / Utf16::Encode with equal widths: copy, refusing a trailing first half of a pair
-   (note the strict "< HighSurrogatesEnd" of the C++) *)
+   (D800..DBFF) *)
 Fixpoint copy16 (inp : list N) (pos : nat) (out : list N) : result :=
   match inp with
   | [] => mkR Success pos 0 out
   | s :: t =>
     match t with
-    | [] => if (0xD800 <=? s) && (s <? 0xDBFF) then mkR UnexpectedEnd pos 0 out
+    | [] => if (0xD800 <=? s) && (s <=? 0xDBFF) then mkR UnexpectedEnd pos 0 out
             else mkR Success (S pos) 0 (out ++ [s])
     | _ => copy16 t (S pos) (out ++ [s])
     end
